@@ -64,7 +64,16 @@ theorem stepC_cr (hnc : cfg.create = false) : ∃ lo, stepC s o cfg codes cs = f
         · exact ⟨_, rfl, logOut_cr⟩
         · split
           · exact ⟨_, rfl, extOut_cr⟩
-          · exact ⟨_, rfl, localCr_lift⟩
+          · cases hp : hstoPick s o cfg cs with
+            | some lo =>
+              refine ⟨lo, rfl, hstoOut_cr (s := s) (o := o) (cfg := cfg) (op := opAt cs.code cs.st.pc) ?_⟩
+              unfold hstoPick at hp
+              split at hp
+              · cases hp
+              · split at hp
+                · exact hp
+                · cases hp
+            | none => exact ⟨_, rfl, localCr_lift⟩
 
 theorem noCr_init {env : Env} {this : Nat} : NoCr (initC env codes this) :=
   ⟨rfl, rfl, fun k hk => by cases hk⟩
@@ -184,7 +193,7 @@ theorem stepC_good (hs : SimpSound s) (hmem : cfg.maxMem + 32 ≤ p.memLimit) (h
     (hcb : ∀ a prog, codeOf codes a = some prog → ∀ b ∈ prog, b < 256)
     (hob : cfg.balances = true → OracleSound o)
     (hH : ∀ I, H I → (cfg.balances = true → BalHyp I cfg w0) ∧ (cfg.sha3 = true → ShaInterp I p cfg))
-    (hch : CreateHyp cfg p S w0) {cs : CState}
+    (hch : CreateHyp cfg p S w0) (hnh : cfg.hsto = false) {cs : CState}
     (hg : GoodC p S w0 cs0 H cs) :
     (∀ cs' ∈ (stepC s o cfg codes cs).next, GoodC p S w0 cs0 H cs') ∧
     (∀ ce ∈ (stepC s o cfg codes cs).ends, GoodEndC p S w0 cs0 H ce) := by
@@ -194,14 +203,14 @@ theorem stepC_good (hs : SimpSound s) (hmem : cfg.maxMem + 32 ≤ p.memLimit) (h
     have hsat : Sat I cs.st.path := by rw [hp] at hsat'; exact (sat_append.1 hsat').1
     obtain ⟨w, f, kcs, hrel, hback⟩ := hg I hI hHI f0 h0 hsat
     obtain ⟨w', f', kcs', hrel', hb'⟩ :=
-      (stepC_sound (o := o) hs hI hmem hdep hcodes hS hcb (fun hbal => ⟨hob hbal, (hH I hHI).1 hbal⟩) (hH I hHI).2 hch hrel hsat).1 cs' hm
+      (stepC_sound (o := o) hs hI hmem hdep hcodes hS hcb (fun hbal => ⟨hob hbal, (hH I hHI).1 hbal⟩) (hH I hHI).2 hch hnh hrel hsat).1 cs' hm
         hsat'
     exact ⟨w', f', kcs', hrel', fun r hr => hback r (hb' r hr)⟩
   · intro ce hm htag h hout I hI hHI f0 h0 hsat'
     have hsat : Sat I cs.st.path := by rw [← stepC_end_path hm]; exact hsat'
     obtain ⟨w, f, kcs, hrel, hback⟩ := hg I hI hHI f0 h0 hsat
     obtain ⟨w', hrun, hW⟩ := (stepC_sound (o := o) hs hI hmem hdep hcodes hS hcb
-      (fun hbal => ⟨hob hbal, (hH I hHI).1 hbal⟩) (hH I hHI).2 hch hrel hsat).2 ce hm htag h hout
+      (fun hbal => ⟨hob hbal, (hH I hHI).1 hbal⟩) (hH I hHI).2 hch hnh hrel hsat).2 ce hm htag h hout
     exact ⟨w', hback _ hrun, hW⟩
 
 /-- **exploreC_sound.** -/
@@ -210,7 +219,7 @@ theorem exploreC_sound (hs : SimpSound s) (hmem : cfg.maxMem + 32 ≤ p.memLimit
     (hcb : ∀ a prog, codeOf codes a = some prog → ∀ b ∈ prog, b < 256)
     (hob : cfg.balances = true → OracleSound o)
     (hH : ∀ I, H I → (cfg.balances = true → BalHyp I cfg w0) ∧ (cfg.sha3 = true → ShaInterp I p cfg))
-    (hch : CreateHyp cfg p S w0) (fuel : Nat) : ∀ (steps : Nat) (wl : List CState) (acc : ResultC),
+    (hch : CreateHyp cfg p S w0) (hnh : cfg.hsto = false) (fuel : Nat) : ∀ (steps : Nat) (wl : List CState) (acc : ResultC),
     (∀ cs ∈ wl, GoodC p S w0 cs0 H cs) → (∀ ce ∈ acc.ends, GoodEndC p S w0 cs0 H ce) →
     ∀ ce ∈ (exploreC s o cfg codes fuel steps wl acc).ends, GoodEndC p S w0 cs0 H ce := by
   induction fuel with
@@ -227,7 +236,7 @@ theorem exploreC_sound (hs : SimpSound s) (hmem : cfg.maxMem + 32 ≤ p.memLimit
       rw [exploreC_succ]
       split
       · exact ih _ _ _ (fun x hx => hwl x (List.mem_cons_of_mem _ hx)) hacc
-      · obtain ⟨hn, he⟩ := stepC_good (o := o) hs hmem hdep hcodes hS hcb hob hH hch (hwl cs (List.mem_cons_self ..))
+      · obtain ⟨hn, he⟩ := stepC_good (o := o) hs hmem hdep hcodes hS hcb hob hH hch hnh (hwl cs (List.mem_cons_self ..))
         refine ih _ _ _ ?_ ?_
         · intro x hx
           rcases List.mem_append.1 hx with hx | hx
@@ -298,7 +307,7 @@ theorem exploreC_complete (hs : SimpSound s) (ho : OracleSound o) (hmem : cfg.ma
     (hS : ∀ a prog, codeOf codes a = some prog → S a)
     (hcb : ∀ a prog, codeOf codes a = some prog → ∀ b ∈ prog, b < 256)
     {I : Interp} (hI : I.Std) (hb : cfg.balances = true → BalHyp I cfg w0)
-    (hsi : cfg.sha3 = true → ShaInterp I p cfg) (hch : CreateHyp cfg p S w0) {cs0 : CState}
+    (hsi : cfg.sha3 = true → ShaInterp I p cfg) (hch : CreateHyp cfg p S w0) (hnh : cfg.hsto = false) {cs0 : CState}
     (hsok : ∀ cs, VisitedC s o cfg codes cs0 cs → ShaOK I s cfg cs) {r : Evm.World × Evm.Halt} (fuel : Nat) :
     ∀ (steps : Nat) (wl : List CState) (acc : ResultC), (∀ cs ∈ wl, VisitedC s o cfg codes cs0 cs) →
     (∃ cs ∈ wl, Sat I cs.st.path ∧ ∃ w f kcs, RelC I p S w0 cs w f kcs ∧ RunStack p w f kcs r ∧
@@ -325,7 +334,7 @@ theorem exploreC_complete (hs : SimpSound s) (ho : OracleSound o) (hmem : cfg.ma
           · exact hvis x (List.mem_cons_of_mem _ hx)
         rcases List.mem_cons.1 hm with rfl | hm
         · rcases stepC_complete (o := o) hs ho hI hmem hdep hcodes hS hcb hb hsi
-              (hsok _ (hvis _ (List.mem_cons_self ..))) hch hrel hsat hrun hbb with
+              (hsok _ (hvis _ (List.mem_cons_self ..))) hch hnh hrel hsat hrun hbb with
             ⟨cs', hm', hsat', w', f', kcs', hrel', hrun', hbb'⟩ | ⟨ce, hme, hcov⟩ | hb
           · exact ih _ _ _ hvis' ⟨cs', List.mem_append_left _ (List.mem_reverse.2 hm'), hsat', w', f', kcs', hrel',
               hrun', hbb'⟩
